@@ -64,6 +64,7 @@ def noArg : String → Option (Int → Except Err (Grid1D Float))
   | "ClenshawCurtis" => some ClenshawCurtis.make
   | "FejerFirst" => some FejerFirst.make
   | "FejerSecond" => some FejerSecond.make
+  | "FejerSecondCorrected" => some FejerSecondCorrected.make  -- hand-written complete series (not the code)
   | _ => none
 
 def stepArg : String → Option (Int → Float → Except Err (Grid1D Float))
@@ -153,11 +154,15 @@ def int1 : String → Option (Nat → Int)
 
 * `C01.make <Class> <npoints> [<param>] [<P> <W>]`  — constructor
 * `C01.make TrefethenGeneral <npoints> <base|-> <d> <P> <W>`, `… TrefethenStripGeneral <npoints> <base> <rho> <P> <W>`
+* `C01.make FejerSecondCorrected <npoints>` — the hand-written complete Fejér-2 series;
+  `C01.fejer2missing <n>` — the per-weight contribution of the term the code leaves out
 * `C01.fn <generated function> x [y]`, `C01.nat <generated bound> n [j]`, `C01.int <…kFirst> n` -/
 def handle : List String → Option String
   | ["C01.make", cls, n] => do
     let mk ← noArg cls
     pure (showGrid (mk (← pInt n)))
+  | ["C01.fejer2missing", n] => do
+    pure ("ok " ++ sFloats (FejerSecondCorrected.missing (K := Float) (← pNat n)))
   | ["C01.make", "TrefethenCC", n, d] => do
     pure (showGrid (TrefethenCC.make (← pInt n) (← pInt d)))
   | ["C01.make", cls, n, h] => do
